@@ -2,10 +2,10 @@
 from vf.core import Gen
 
 META = dict(
-    functions_encoded=["pydra.environments.lmod.Lmod.execute", "pydra.environments.native.Native.execute",
+    functions_encoded=["pydra.environments.lmod.Lmod.execute", "pydra.environments.lmod.Lmod.run_lmod_cmd", "pydra.environments.native.Native.execute",
                        "pydra.environments.base.execute", "pydra.environments.base.read_and_display",
                        "pydra.compose.shell.task.ShellTask._command_args"],
-    stubs=["Lmod.run_lmod_cmd returns a scripted `lmod python load` output (assignment lines built from symbolic names/values)",
+    stubs=["module/class-level containers of pydra.environments.{lmod,base,native} are restored to their import-time content at the start of every path (a path stands for a fresh process)", "subprocess as seen from pydra.environments.lmod: Popen is a simulated lmod executable whose `python load` output is built from symbolic names/values and from the caller environment at the time of the call (prepend_path semantics); MODULESHOME is set in the caller environment", "re.Pattern.findall: CrossHair realises its subject, replaced by the equivalent loop over the symbolic finditer (vf/chcompat.py)",
            "subprocess.run as seen from pydra.environments.base records argv and env and returns rc 0 (the process is not started)",
            "os.environ as seen from pydra.environments.lmod/base is a plain dict holding the symbolic caller environment",
            "stand-in Job object exposing task/name/inputs exactly as Job.inputs computes them for tasks without file inputs"],
@@ -22,6 +22,8 @@ import pydra.environments.native as N
 from pydra.compose import shell
 from pydra.utils.general import attrs_values
 T.assert_repo(L, B, N)
+import vf.engine as E
+_GUARD = E.StateGuard(L, L.Lmod, B, N, N.Native)
 
 @shell.define
 class Echo(shell.Task["Echo.Outputs"]):
@@ -55,27 +57,75 @@ class _OS:
         import os
         return getattr(os, k)
 
+_JOBS = {(t, f): _Job(Echo(text=t, flag=f)) for t in ("hi", "a", "x.y") for f in (False, True)}      # built once, outside the tracer
 _NAMES = ["PATH", "HOME", "FOO", "LD_LIBRARY_PATH", "A"]
 
 def _okv(v):
     return len(v) <= 3 and all(c not in v for c in ("'", '"', chr(10), chr(13), chr(92)))
 
-def _run(caller, assigns, dq, text, flag):
-    """caller: dict, assigns: list[(name, value)], dq: quote style"""
-    q = '"' if dq else "'"
-    src = "".join("os.environ[%s%s%s] = %s%s%s;\\n" % (q, k, q, q, v, q) for k, v in assigns)
+class _Out(str):
+    """what Popen.communicate returns: decode() hands the (possibly symbolic) text through"""
+    def __new__(cls, text):
+        o = str.__new__(cls, "")
+        o.text = text
+        return o
+    def decode(self, *a):
+        return self.text
+
+class _LmodExe:
+    """simulated lmod executable: `python load` prints one assignment per module setting, computed from the caller's
+    environment at the time of the call (prepend_path prints the complete new value)"""
+    PIPE = -1
+    CalledProcessError = OSError
+    def __init__(self, environ, assigns, dq):
+        self.environ, self.assigns, self.dq, self.spawned = environ, assigns, dq, 0
+    def Popen(self, cmd, stdout=None, stderr=None, **kw):
+        self.spawned += 1
+        q = '"' if self.dq else "'"
+        src = ""
+        for a in self.assigns:            # concatenation keeps symbolic values symbolic (%-formatting would realise them)
+            k, v = a[0], a[1]
+            if len(a) > 2 and a[2]:       # prepend_path
+                old = self.environ.get(k)
+                v = v if not old else v + ":" + old
+            src = src + "os.environ[" + q + k + q + "] = " + q + v + q + ";\\n"
+        src = src + "_mlstatus = True\\n"
+        return types.SimpleNamespace(communicate=lambda: (_Out(src), _Out("")))
+
+def _expected(caller, assigns):
+    want = dict(caller)
+    for a in assigns:
+        k, v = a[0], a[1]
+        if len(a) > 2 and a[2]:
+            old = caller.get(k)
+            v = v if not old else v + ":" + old
+        want[k] = v
+    return want
+
+def _run(caller, assigns, dq, text, flag, steps=()):
+    """caller: dict, assigns: list[(name, value[, prepend])], dq: quote style; steps: later (name, value) changes of the
+    caller's environment, each followed by another execution with the same modules"""
+    _GUARD.restore()
+    caller["MODULESHOME"] = "/opt/lmod"
     sp = _SP(caller)
-    saved = (L.Lmod.run_lmod_cmd, B.sp, L.os, B.os)
-    L.Lmod.run_lmod_cmd = classmethod(lambda cls, *a: src)
-    B.sp = sp
+    exe = _LmodExe(caller, assigns, dq)
+    saved = (L.sp, B.sp, L.os, B.os)
+    L.sp, B.sp = exe, sp
     L.os = B.os = _OS(caller)
+    wants = []
     try:
-        job = _Job(Echo(text=text, flag=flag))
-        L.Lmod(modules=["m"]).execute(job)
+        job = _JOBS[(text, bool(flag))]
+        env = L.Lmod(modules=["m"])
+        env.execute(job)
+        wants.append(_expected(caller, assigns))
         N.Native().execute(job)
+        for k, v in steps:
+            caller[k] = v
+            L.Lmod(modules=["m"]).execute(job)
+            wants.append(_expected(caller, assigns))
     finally:
-        L.Lmod.run_lmod_cmd, B.sp, L.os, B.os = saved
-    return sp.calls
+        L.sp, B.sp, L.os, B.os = saved
+    return sp.calls, wants
 '''
 
 
@@ -89,17 +139,26 @@ def build(tier, seed, exclude):
         if i1 != i0:
             caller[_NAMES[i1]] = c1
         assigns = [(_NAMES[j0], v0)] + ([(_NAMES[j1], v1)] if two else [])
-        calls = _run(caller, assigns, dq, text, flag)
+        calls, wants = _run(caller, assigns, dq, text, flag)
         T.reach()
         (argv_l, env_l), (argv_n, env_n) = calls
         if argv_l != argv_n:
             return T.fail(lambda: f"argv differs: lmod {argv_l} native {argv_n}")
-        want = dict(caller)
-        for k, v in assigns:
-            want[k] = v
-        if env_l != want:
-            return T.fail(lambda: f"caller env {caller}, module sets {assigns}: process env {env_l}, expected {want}")
+        if env_l != wants[0]:
+            return T.fail(lambda: f"caller env {caller}, module sets {assigns}: process env {env_l}, expected {wants[0]}")
         return True
+    """
+    hist = """
+        caller = {"PATH": "/usr/bin", "HOME": "/root", "FOO": "f"}
+        assigns = [(_NAMES[j0], "/opt/m/bin", bool(pre0)), ("A", "1", False)]
+        steps = [(_NAMES[k1], w1)] + ([(_NAMES[k2], w2)] if two else [])
+        calls, wants = _run(caller, assigns, dq, "hi", False, steps)
+        T.reach()
+        envs = [calls[0][1]] + [c[1] for c in calls[2:]]
+        for n, (got, want) in enumerate(zip(envs, wants)):
+            if got != want:
+                return T.fail(lambda: f"modules {assigns}, caller changes {steps}: execution {n} ran in {got}, expected {want}")
+        return len(envs) == len(wants)
     """
     pre = ["0 <= i0 < 5 and 0 <= i1 < 5 and 0 <= j0 < 5 and 0 <= j1 < 5",
            "_okv(c0) and _okv(c1) and _okv(v0) and _okv(v1)", "0 <= ti < 3"]
@@ -108,8 +167,16 @@ def build(tier, seed, exclude):
     g.cond("h_lmod_env_idx", "i0: int, i1: int, j0: int, j1: int, two: bool, dq: bool, flag: bool",
            ["0 <= i0 < 5 and 0 <= i1 < 5 and 0 <= j0 < 5 and 0 <= j1 < 5"],
            "c0, c1, v0, v1, ti = '/usr/bin', '/root', 'x:y', '', 0\n" + body.replace("\n        ", "\n"), timeout=to)
+    # one module value / one caller value left symbolic, everything else fixed (the solver has to find the characters that matter)
+    g.cond("h_lmod_value", "v0: str, dq: bool", ["_okv(v0)"],
+           "i0, i1, j0, j1, c0, c1, v1, two, ti, flag = 0, 1, 2, 0, '/usr/bin', '/root', '/opt/m/bin:/usr/bin', True, 0, False\n" + body.replace("\n        ", "\n"), timeout=to)
+    g.cond("h_lmod_caller_value", "c0: str, i0: int, dq: bool", ["_okv(c0) and 0 <= i0 < 5"],
+           "i1, j0, j1, c1, v0, v1, two, ti, flag = 1, 2, 0, '/root', 'x', '/opt/m/bin', True, 0, False\n" + body.replace("\n        ", "\n"), timeout=to)
+    # histories: the caller's environment changes between executions with the same modules
+    g.cond("h_lmod_history", "j0: int, pre0: bool, k1: int, w1: str, k2: int, w2: str, two: bool, dq: bool",
+           ["0 <= j0 < 5 and 0 <= k1 < 5 and 0 <= k2 < 5", "_okv(w1) and _okv(w2)"], hist, timeout=to)
     g.cond("twin_lmod", "i0: int, dq: bool", ["0 <= i0 < 5"], """
-        calls = _run({_NAMES[i0]: "v"}, [("FOO", "1")], dq, "t", False)
+        calls, wants = _run({_NAMES[i0]: "v"}, [("FOO", "1")], dq, "hi", False)
         T.reach()
         return len(calls) != 2
     """, timeout=30, kind="twin")
